@@ -247,6 +247,9 @@ def run(ctx):
     flf = fb.find("interpreter::interpreter::Interpreter::file_library_factory")
     d_loc = libtables.rule_location(ctx, "C14-location", "C14-errors-are-results")
     # what reading a library file leaves behind: nothing under any name but the requested one (history independence)
+    ctx.rule("C14-faults-propagate", "a library whose import declaration or body statement (expression or definition) faults fails to load with "
+                                     "that error, and nothing after the failing declaration is processed (table of eval_library_definition)")
+    libtables.rule_body_failures(ctx, "C14-faults-propagate")
     ctx.rule("C14-history-independent", "loading a library from its file registers / caches nothing under another name the file may also "
                                         "hold: the outcome of a later import does not depend on this one having been attempted")
     libtables.rule_file_load(ctx, "C14-history-independent")
